@@ -13,8 +13,19 @@ import struct
 import hashlib
 
 
+_OBJ = {}
+
+
 def shared_build(s):
-    """like exprgen.build, but identifiers that name x86 registers / flags are the shared singletons of ia32_sem"""
+    """like exprgen.build, but identifiers that name x86 registers / flags are the shared singletons of ia32_sem, and within one
+    process the same script yields the same object (client code evaluates / simplifies one expression object several times)"""
+    key = json.dumps(s)
+    if key not in _OBJ:
+        _OBJ[key] = _shared_build(s)
+    return _OBJ[key]
+
+
+def _shared_build(s):
     from miasmx.arch import ia32_sem as sem
     from miasmx.expression import expression as ex
     from miasmx.tools import modint
@@ -113,6 +124,16 @@ def run_probe(p):
             if snap_instr(i) != before:
                 mut = "instruction object changed by lifting"
             return r, mut
+        if k == "liftsimp":
+            i = x86mnemo.dis(bytes.fromhex(p["b"]))
+            if i is None:
+                return None, mut
+            ex = emul_helper.get_instr_expr(i, ExprInt(uint32(0x1000 + i.l)), [])
+            before = [ser_expr(e) for e in ex]
+            r = [[ser_expr(e.dst), ser_expr(expr_simp(e.src))] for e in ex]
+            if [ser_expr(e) for e in ex] != before:
+                mut = "lifted expressions changed by expr_simp"
+            return r, mut
         if k == "render":
             i = x86mnemo.dis(bytes.fromhex(p["b"]))
             if i is None:
@@ -191,6 +212,40 @@ def table_fingerprint():
     return h.hexdigest()
 
 
+def reset_hidden(which):
+    """interventions used to attribute a history dependence to one hidden-state mechanism"""
+    from miasmx.arch import ia32_sem as sem
+    from miasmx.expression import expression as ex
+    from miasmx.expression import expression_eval_abstract as ea
+    if which == "is_eval-on-shared-register":
+        for v in vars(sem).values():
+            if isinstance(v, ex.ExprId) and "is_eval" in vars(v):
+                del v.is_eval
+    elif which == "default-eval_cache":
+        for f in vars(ea.eval_abs).values():
+            for d in (getattr(f, "__defaults__", None) or ()):
+                if isinstance(d, dict):
+                    d.clear()
+    elif which == "memoised-expression-objects":
+        _OBJ.clear()
+    else:
+        raise ValueError(which)
+
+
+RESETS = ["is_eval-on-shared-register", "default-eval_cache", "memoised-expression-objects"]
+
+
+def run_history_here(h, fingerprint=True, reset=None):
+    fp0 = table_fingerprint() if fingerprint else None
+    steps = []
+    for i, p in enumerate(h):
+        if reset and i == len(h) - 1:
+            reset_hidden(reset)
+        res, mut = run_probe(p)
+        steps.append([res, mut])
+    return {"steps": steps, "tables_changed": bool(fingerprint and table_fingerprint() != fp0)}
+
+
 # ---- pristine results -----------------------------------------------------------------------------
 class Pristine(object):
     def __init__(self):
@@ -212,19 +267,34 @@ class Pristine(object):
 
     def _zygote(self, rfd, wfd):
         # this process has imported miasmX (through the parent) but has not executed any API call
-        inp = os.fdopen(rfd, "rb")
+        import select
+        inp = os.fdopen(rfd, "rb", buffering=0)
+        parent = os.getppid()
         while True:
+            # the request pipe is inherited by sibling processes, so EOF never arrives: leave when the parent is gone
+            while not select.select([rfd], [], [], 2.0)[0]:
+                if os.getppid() != parent:
+                    return
             hdr = inp.read(4)
             if len(hdr) < 4:
                 return
             n = struct.unpack("<I", hdr)[0]
-            probe = json.loads(inp.read(n).decode())
+            data = b""
+            while len(data) < n:
+                chunk = inp.read(n - len(data))
+                if not chunk:
+                    return
+                data += chunk
+            req = json.loads(data.decode())
             pid = os.fork()
             if pid == 0:
                 try:
                     devnull = open(os.devnull, "w")
                     sys.stdout = devnull
-                    res = run_probe(probe)[0]
+                    if isinstance(req, dict) and req.get("mode") == "history":
+                        res = run_history_here(req["h"], req.get("fingerprint", True), req.get("reset"))
+                    else:
+                        res = run_probe(req)[0]
                     out = json.dumps(res).encode()
                 except BaseException as e:
                     out = json.dumps("ZYGOTE-EXC:%s" % type(e).__name__).encode()
@@ -232,25 +302,42 @@ class Pristine(object):
                 os._exit(0)
             os.waitpid(pid, 0)
 
+    def _ask(self, obj):
+        if self.pid is None:
+            self.start()
+        b = json.dumps(obj, sort_keys=True).encode()
+        self.req.write(struct.pack("<I", len(b)) + b)
+        self.req.flush()
+        n = struct.unpack("<I", self.res.read(4))[0]
+        data = b""
+        while len(data) < n:
+            chunk = self.res.read(n - len(data))
+            if not chunk:
+                raise RuntimeError("zygote died")
+            data += chunk
+        return json.loads(data.decode())
+
+    def history(self, h, fingerprint=True, reset=None):
+        if reset:
+            return self._ask({"mode": "history", "h": h, "fingerprint": fingerprint, "reset": reset})
+        """the whole history executed in one fresh child: {"steps": [[result, mutation], ...], "tables_changed": bool}"""
+        return self._ask({"mode": "history", "h": h, "fingerprint": fingerprint})
+
     def result(self, probe):
         key = json.dumps(probe, sort_keys=True)
         if key in self.cache:
             return self.cache[key]
-        if self.pid is None:
-            self.start()
-        b = key.encode()
-        self.req.write(struct.pack("<I", len(b)) + b)
-        self.req.flush()
-        n = struct.unpack("<I", self.res.read(4))[0]
-        r = json.loads(self.res.read(n).decode())
+        r = self._ask(probe)
         self.cache[key] = r
         return r
 
     def close(self):
         if self.pid:
+            import signal
             try:
-                self.req.close()
+                os.kill(self.pid, signal.SIGKILL)
                 os.waitpid(self.pid, 0)
+                self.req.close()
             except Exception:
                 pass
             self.pid = None
